@@ -11,6 +11,7 @@ let rec parse_beh (t : ostring list) : beh * ostring list =
   match t with
   | "R" :: m :: z :: r -> (BRet (m = "1", zi (ios z)), r)
   | "E" :: m :: z :: r -> (BErr (m = "1", zi (ios z)), r)
+  | "G" :: m :: z :: e :: r -> (BErrZ (m = "1", zi (ios z), zi (ios e)), r)
   | "P" :: m :: r -> (BPause (m = "1"), r)
   | "X" :: m :: r -> (BCancel (m = "1"), r)
   | "F" :: k :: e :: r -> let (b, r') = parse_beh r in (BFailFirst (nat_of_int (ios k), zi (ios e), b), r')
